@@ -498,7 +498,11 @@ def tt_ind2sub(
     """
     if idx.size == 0:
         return np.empty(shape=(0, len(shape)), dtype=int)
-    # Handle negative indexing as simply as possible, without writing to the caller's array
+    # Handle negative indexing as simply as possible, without writing to the caller's array.
+    # Sizes and indices as Python / 64-bit integers: neither the dtype of the shape entries
+    # nor that of the index array may bound the arithmetic
+    shape = tuple(int(s) for s in shape)
+    idx = np.asarray(idx).astype(np.int64, copy=False)
     idx = np.where(idx < 0, idx + prod(shape), idx)
     return np.array(np.unravel_index(idx, shape, order=order)).transpose()
 
